@@ -5,7 +5,7 @@ import numpy as np
 from .common import guarded, run_model, rat, F
 
 RULE = ("every (N, n, x) with N <= 10 (quick) / 22 (thorough), three alternatives, several confidence levels and "
-        "starting points G; non-trivial = 0 < x < n (both limits come from the search); distinct by arguments; "
+        "starting points G; populations of 10^3 .. 1.2*10^7 (incl. 2^16+1, 2^20-1, 2^20+5) with samples of 5..60, limits checked one step inside / outside with exact tails; non-trivial = 0 < x < n (both limits come from the search); distinct by arguments; "
         "coverage computed exactly over all x for every true G")
 LEVEL = ("theorems hgLower_spec / hgUpper_spec (limits are the least / greatest G reaching the level), "
          "hg_coverage_lower / hg_coverage_upper (for every true G), hg_trivial_limits; model validated exhaustively "
@@ -111,6 +111,39 @@ def run(ctx):
                                                          "issue": "coverage below the requested level", "coverage": cov, "required": need,
                                                          "limits_by_x": [table[(N, n, alt, cl, x)] for x in range(n + 1)]}, site="hypergeom_conf_interval")
                                 break
+    # ---- large populations (ballot-sized N, lengths past powers of two), small samples: the returned limits are checked
+    #      against the defining inequalities one step inside and outside (exact big-integer tails)
+    for _ in range(ctx.n(60, 600)):
+        N = ctx.rng.choice([1000, 5000, 2**16 + 1, 2**20 - 1, 2**20 + 5, 1200000, 1500000, 3 * 10**6, 12345678])
+        n = ctx.rng.randint(5, 60); x = ctx.rng.choice([0, 1, n, n - 1, ctx.rng.randint(0, n), ctx.rng.randint(0, n)])
+        cl = ctx.rng.choice(CLS); alt = ctx.rng.choice(ALTS); a = level(cl, alt)
+        r = guarded(utils.hypergeom_conf_interval, n, x, N, cl, alt, secs=60)
+        det = {"call": "hypergeom_conf_interval", "n": n, "x": x, "N": N, "cl": cl, "alternative": alt}
+        ctx.case(("large", n, x, N, cl, alt), True, det); ctx.count("large-population")
+        if r[0] != "ok":
+            det.update({"issue": "call failed", "returned": r[1:]}); ctx.violation("oracle", det, site="hypergeom_conf_interval"); continue
+        lo, hi = int(r[1][0]), int(r[1][1])
+        tie = lambda v: abs(v - a) <= Fr(1, 10**7) * a
+        why = None
+        if alt != "upper" and x > 0:
+            s_in, s_out = sf(N, lo, n, x), (sf(N, lo - 1, n, x) if lo > 0 else Fr(0))
+            if tie(s_in) or tie(s_out):
+                ctx.bracketed += 1
+            elif not (s_in >= a and (lo == 0 or s_out < a)):
+                why = f"lower limit {lo} is not the smallest G with P_G(X >= x) >= {float(a)}: P at the limit {float(s_in):.6g}, one below {float(s_out):.6g}"
+        elif lo != 0:
+            why = "lower limit should be 0"
+        if why is None:
+            if alt != "lower" and x < n:
+                c_in, c_out = cdf(N, hi, n, x), (cdf(N, hi + 1, n, x) if hi < N else Fr(0))
+                if tie(c_in) or tie(c_out):
+                    ctx.bracketed += 1
+                elif not (c_in >= a and (hi == N or c_out < a)):
+                    why = f"upper limit {hi} is not the largest G with P_G(X <= x) >= {float(a)}: P at the limit {float(c_in):.6g}, one above {float(c_out):.6g}"
+            elif hi != N:
+                why = "upper limit should be N"
+        if why:
+            det.update({"issue": why, "returned": [lo, hi]}); ctx.violation("oracle", det, site="hypergeom_conf_interval")
     # the same calls again in random order, interleaved across alternatives / levels: results must not depend on history
     keys = list(table)
     ctx.rng.shuffle(keys)
